@@ -1171,7 +1171,16 @@ export class AnyOfConstsRuntype extends BaseRuntype {
   }
   hash(_ctx: HashContext): number {
     let acc: number[] = [anyOfConstsHash];
-    for (const v of [...this.values].sort()) {
+    // the default sort compares String(v): "1" and 1 tie and would stay in the order they were given in
+    const byStringThenType = (a: unknown, b: unknown): number => {
+      const x = String(a);
+      const y = String(b);
+      if (x !== y) {
+        return x < y ? -1 : 1;
+      }
+      return typeof a < typeof b ? -1 : typeof a > typeof b ? 1 : 0;
+    };
+    for (const v of [...this.values].sort(byStringThenType)) {
       if (v == null) {
         acc.push(nullishHash);
       } else {
